@@ -23,6 +23,7 @@ sqx = z3.Function("sqx", smt.Ref, Row, smt.IntS)
 sqb = z3.Function("sqb", smt.Ref, Row, smt.BoolS)
 colget = z3.Function("colmap_get", smt.Ref, smt.Tag, smt.Ref)
 colhas = z3.Function("colmap_has", smt.Ref, smt.Tag, smt.BoolS)
+table_get = z3.Function("functions_get", smt.Ref, smt.StrS, smt.Ref)  # engine.functions.get(name)
 opfun = z3.Function("operator_function", smt.StrS, smt.Ref)  # getattr(operator, name, engine.functions.get(name))
 opname = z3.Function("operator_function_name", smt.Ref, smt.StrS)  # inverse of operator_function
 portable = z3.Function("portable", smt.Ref, smt.BoolS)  # expression / predicate / container over the portable operator set
@@ -187,6 +188,11 @@ def _compare(ex, op, a, b, st, node):
 
 def _builtin(ex, name, args, kwargs, st, node):
     if name == "getattr" and len(args) == 3 and isinstance(args[0], ModuleVal) and args[0].name == "operator" and isinstance(args[1], SV) and args[1].td == TStr:
+        # stdlib contract (assumed): getattr(operator, name, default) is the operator module's attribute of that name when it has
+        # one -- opfun(name) != None -- and the default otherwise
+        d = args[2]
+        if isinstance(d, SV) and isinstance(d.td, TRefT):
+            return ex.ok(SV(TRefT(None, True), z3.If(opfun(args[1].z) != smt.NONE, opfun(args[1].z), d.z)), st)
         return ex.ok(SV(TRefT(None, True), opfun(args[1].z)), st)
     if name == "getattr" and len(args) == 2 and is_sql(args[0]) and isinstance(args[1], SV) and args[1].td == TStr:
         return ex.ok(Opaque("method of a SQL element selected by a non-operator name (outside the portable set)"), st)
@@ -206,6 +212,10 @@ def _builtin(ex, name, args, kwargs, st, node):
         return ex.ok(t, st)
     if name == "any.desc" and len(args) == 1 and is_sql(args[0]):
         return ex.ok(term(st, "desc"), st)
+    if name == "any.get" and len(args) == 2 and isinstance(args[0], SV) and isinstance(args[0].td, TRefT) and z3.is_app(args[0].z) \
+            and args[0].z.decl().name().endswith(".functions") and isinstance(args[1], SV) and args[1].td == TStr:
+        # engine.functions.get(name): whatever the engine's own table holds for the name (an uninterpreted function of both), or None
+        return ex.ok(SV(TRefT(None, True), table_get(args[0].z, args[1].z)), st)
     if name == "any.get" and len(args) >= 2 and _in_sql_convert(ex):
         return ex.ok(SV(TRefT(None, True), smt.NONE), st)  # self.functions.get(name): only reached through getattr's default
     return None
@@ -292,9 +302,10 @@ def register(reg):
     if portable_axioms not in reg.global_axioms:
         reg.global_axioms.append(portable_axioms)
     P = ("C12",)
-    k = reg.contract("_engine:GenericConcreteEngine.get_function", assumed=True, properties=P, result_td=TRefT(None, True),
-                     note="definition of operator_function(name): getattr(operator, name, engine.functions.get(name)); for the portable names this is the operator module's function")
-    k.ens("is-the-named-operator-function", lambda c: B(c.result.z == opfun(c.name.z)))
+    # session 4: verified from its body (was assumed); what stays assumed is the stdlib contract of getattr(operator, name, default)
+    k = reg.contract("_engine:GenericConcreteEngine.get_function", assumed=False, properties=P, result_td=TRefT(None, True),
+                     note="operator_function(name): getattr(operator, name, engine.functions.get(name)); a name the operator module has denotes the operator module's function, whatever the engine's own function table holds")
+    k.ens("is-the-named-operator-function", lambda c: B(z3.Implies(opfun(c.name.z) != smt.NONE, c.result.z == opfun(c.name.z))))
     TRow = type("TRowT", (smt.TD,), {"sort": Row, "name": "row"})()
 
     def pre(k, what):
